@@ -22,6 +22,12 @@ def h(x):
     return "other-%s" % x
 
 
+@m.memento_function(cluster="vfc", version="1")
+def gnone(x):
+    sys.audit("vf.body", "gnone", x)
+    return None
+
+
 @m.memento_function(cluster="vfc")
 def solo_a(x):
     sys.audit("vf.body", "solo_a", x)
@@ -85,18 +91,21 @@ def flaky(x):
 
 
 # the reference: what an un-memoized program returns, and the call tree below each call
-CALLS = {"flaky": (), "g": (), "h": (), "solo_a": (), "solo_b": (), "leaf": (), "mid": ("leaf",), "top1": ("mid",), "top2": ("mid",)}
+CALLS = {"flaky": (), "gnone": (), "g": (), "h": (), "solo_a": (), "solo_b": (), "leaf": (), "mid": ("leaf",), "top1": ("mid",), "top2": ("mid",)}
 _FMT = {"flaky": "flaky-%s", "g": "val-%s", "h": "other-%s", "solo_a": "a-%s", "solo_b": "b-%s", "leaf": "leaf-%s", "mid": "mid(%s)",
         "top1": "top1(%s)", "top2": "top2(%s)"}
 
 
 def expected(fn, x):
+    if fn == "gnone" or fn.endswith("!ignore"):
+        return None
     inner = CALLS[fn]
     return _FMT[fn] % (expected(inner[0], x) if inner else x)
 
 
 def closure(fn, x):
     """All distinct (function, argument) calls made by fn(x), itself included, in call order."""
+    fn = fn.split("!")[0]
     out = [(fn, x)]
     for c in CALLS[fn]:
         out += closure(c, x)
